@@ -17,6 +17,7 @@ import (
 	"fmt"
 	"net/http"
 	"net/url"
+	"regexp"
 	"sort"
 	"strings"
 	"time"
@@ -33,7 +34,7 @@ import (
 func init() { streams["C10"] = c10Stream }
 
 var c10Flows = []string{"authorize", "authorize-unregistered", "callback-code", "callback-implicit", "token-code", "token-refresh", "token-cc", "token-jwt-bearer",
-	"token-exchange", "device-authorization", "token-device", "userinfo", "introspect", "revoke", "end-session", "keys"}
+	"token-exchange", "device-authorization", "token-device", "userinfo", "introspect", "revoke", "end-session", "keys", "ready"}
 
 // credential placements per flow (how the client names / authenticates itself)
 var c10Creds = map[string][]string{
@@ -54,6 +55,7 @@ type c10Var struct {
 	teVerifier, hint, formToken         bool
 	scopes, mode, respType              string
 	subType, reqType                    int
+	secrets                             []string // "c:<value>" codes / device codes / user codes, "t:<value>" tokens issued BEFORE the request under test
 }
 
 func (v c10Var) desc() string {
@@ -142,6 +144,33 @@ func c10Prepare(r *hx.Rand, sy *symbols, router, flow string, vi int) (*opbed.Be
 	if err != nil {
 		panic(err)
 	}
+	// everything the fault-free prefix hands out: the answer to the faulted request must not repeat any of it
+	note := func(resp *opbed.Resp) *opbed.Resp {
+		var vals url.Values
+		if resp.Loc != nil {
+			vals = resp.Loc.Query()
+			if frag, err := url.ParseQuery(resp.Loc.Fragment); err == nil {
+				for k2, v2 := range frag {
+					vals[k2] = v2
+				}
+			}
+		}
+		for _, k := range []string{"code", "device_code", "user_code"} {
+			for _, x := range []string{resp.Str(k), vals.Get(k)} {
+				if len(x) >= 6 {
+					v.secrets = append(v.secrets, "c:"+x)
+				}
+			}
+		}
+		for _, k := range []string{"access_token", "refresh_token", "id_token"} {
+			for _, x := range []string{resp.Str(k), vals.Get(k)} {
+				if len(x) >= 8 {
+					v.secrets = append(v.secrets, "t:"+x)
+				}
+			}
+		}
+		return resp
+	}
 	cls := flowClients()
 	fc := c10Client(cls, v.cred)
 	for _, c := range cls {
@@ -170,7 +199,7 @@ func c10Prepare(r *hx.Rand, sy *symbols, router, flow string, vi int) (*opbed.Be
 		return q
 	}
 	login := func(respType string) string {
-		resp := bed.Do(bed.Get("/authorize", authorizeQ(respType), ""))
+		resp := note(bed.Do(bed.Get("/authorize", authorizeQ(respType), "")))
 		if resp.Loc == nil {
 			return ""
 		}
@@ -192,6 +221,7 @@ func c10Prepare(r *hx.Rand, sy *symbols, router, flow string, vi int) (*opbed.Be
 		if i := strings.Index(body, `name="code" value="`); i >= 0 {
 			rest := body[i+len(`name="code" value="`):]
 			if j := strings.Index(rest, `"`); j >= 0 {
+				v.secrets = append(v.secrets, "c:"+rest[:j])
 				return rest[:j]
 			}
 		}
@@ -199,7 +229,7 @@ func c10Prepare(r *hx.Rand, sy *symbols, router, flow string, vi int) (*opbed.Be
 	}
 	codeForm := func() url.Values {
 		id := login("code")
-		cb := bed.Do(bed.Get("/authorize/callback", url.Values{"id": {id}}, ""))
+		cb := note(bed.Do(bed.Get("/authorize/callback", url.Values{"id": {id}}, "")))
 		f := url.Values{"grant_type": {"authorization_code"}, "code": {codeOf(cb)}, "redirect_uri": {redirect}}
 		if usePKCE {
 			f.Set("code_verifier", c10Verifier)
@@ -207,7 +237,7 @@ func c10Prepare(r *hx.Rand, sy *symbols, router, flow string, vi int) (*opbed.Be
 		return f
 	}
 	tokens := func() *opbed.Resp {
-		return bed.Do(bed.Form("/oauth/token", codeForm(), ownAuth(sy, fc)))
+		return note(bed.Do(bed.Form("/oauth/token", codeForm(), ownAuth(sy, fc))))
 	}
 	auth, extra := c10Auth(sy, fc, v.cred)
 	switch flow {
@@ -266,7 +296,7 @@ func c10Prepare(r *hx.Rand, sy *symbols, router, flow string, vi int) (*opbed.Be
 	case "device-authorization":
 		return bed, bed.Form("/device_authorization", merged(url.Values{"scope": {scopes}}, extra), auth), redirect, v
 	case "token-device":
-		da := bed.Do(bed.Form("/device_authorization", url.Values{"scope": {scopes}}, ownAuth(sy, fc)))
+		da := note(bed.Do(bed.Form("/device_authorization", url.Values{"scope": {scopes}}, ownAuth(sy, fc))))
 		if uc := da.Str("user_code"); uc != "" {
 			bed.Store.ApproveDevice(uc, "user1")
 		}
@@ -311,6 +341,9 @@ func c10Prepare(r *hx.Rand, sy *symbols, router, flow string, vi int) (*opbed.Be
 			q.Set("post_logout_redirect_uri", fc.c.PostLogout[0])
 		}
 		return bed, bed.Get("/end_session", q, ""), redirect, v
+	case "ready":
+		// the readiness endpoint: its probe loop asks the storage (ReadyStorage -> Storage.Health)
+		return bed, bed.Get("/ready", nil, ""), redirect, v
 	default: // keys
 		return bed, bed.Get("/keys", nil, ""), redirect, v
 	}
@@ -324,7 +357,78 @@ func journalMethod(entry string) string {
 }
 
 // c10Observe renders what the response to the faulted request contains
-func c10Observe(l *hx.Line, flow, redirect string, resp *opbed.Resp) {
+var c10JWTShape = regexp.MustCompile(`eyJ[A-Za-z0-9_-]{8,}\.[A-Za-z0-9_-]{8,}\.[A-Za-z0-9_-]*`)
+
+// c10Scan: what the WHOLE answer (body and every header, raw) contains: (a code / device code, a token, user claims).
+// Looked for: every secret the fault-free prefix handed out, anything of JWT shape, any JSON member (at any depth) or form field
+// named like a credential, the user's claim values
+func c10Scan(resp *opbed.Resp, secrets []string) (code, tok, claims bool) {
+	var sb strings.Builder
+	sb.Write(resp.Body)
+	for k, vs := range resp.Header {
+		for _, x := range vs {
+			sb.WriteString("\n" + k + ": " + x)
+			if u, err := url.QueryUnescape(x); err == nil && u != x {
+				sb.WriteString("\n" + k + ": " + u)
+			}
+		}
+	}
+	all := sb.String()
+	for _, sc := range secrets {
+		if strings.Contains(all, sc[2:]) {
+			if sc[0] == 'c' {
+				code = true
+			} else {
+				tok = true
+			}
+		}
+	}
+	if c10JWTShape.MatchString(all) {
+		tok = true
+	}
+	var walk func(x any)
+	walk = func(x any) {
+		switch v := x.(type) {
+		case map[string]any:
+			for k, y := range v {
+				if s, _ := y.(string); s != "" {
+					switch k {
+					case "code", "device_code", "user_code":
+						code = true
+					case "access_token", "refresh_token", "id_token":
+						tok = true
+					case "sub", "email", "name", "preferred_username", "phone_number":
+						claims = true
+					}
+				}
+				walk(y)
+			}
+		case []any:
+			for _, y := range v {
+				walk(y)
+			}
+		}
+	}
+	walk(map[string]any(resp.JSON))
+	for _, f := range []string{`name="code"`, `name="device_code"`, `name="user_code"`} {
+		if strings.Contains(all, f) {
+			code = true
+		}
+	}
+	for _, f := range []string{`name="access_token"`, `name="id_token"`, `name="refresh_token"`} {
+		if strings.Contains(all, f) {
+			tok = true
+		}
+	}
+	for _, f := range []string{"user1@example.com", "Name of user1", `"sub"`, "+00 user1"} {
+		if strings.Contains(all, f) {
+			claims = true
+		}
+	}
+	return
+}
+
+func c10Observe(l *hx.Line, flow, redirect string, resp *opbed.Resp, secrets []string) {
 	l.I("o.status", int64(resp.Status)).B("o.panic", resp.Panicked)
 	body := string(resp.Body)
 	hasTok := resp.Str("access_token") != "" || resp.Str("refresh_token") != "" || resp.Str("id_token") != ""
@@ -356,8 +460,10 @@ func c10Observe(l *hx.Line, flow, redirect string, resp *opbed.Resp) {
 	_, hasSub := resp.JSON["sub"]
 	active, _ := resp.JSON["active"].(bool)
 	dcode := resp.Str("device_code") != "" || resp.Str("user_code") != ""
-	l.B("o.redirect", hasRedirect).B("o.locerr", locErr).B("o.locreg", locReg).B("o.code", hasCode || dcode).B("o.token", hasTok).
-		B("o.claims", hasSub && (flow == "userinfo" || flow == "introspect")).B("o.active", active).S("o.err", resp.OAuthError())
+	sCode, sTok, sClaims := c10Scan(resp, secrets)
+	l.B("o.redirect", hasRedirect).B("o.locerr", locErr).B("o.locreg", locReg).B("o.code", hasCode || dcode || sCode).B("o.token", hasTok || sTok).
+		B("o.claims", (hasSub && (flow == "userinfo" || flow == "introspect")) || sClaims).B("o.active", active).S("o.err", resp.OAuthError())
+	l.B("o.scan", sCode || sTok || sClaims)
 }
 
 type c10Kind struct {
@@ -448,7 +554,7 @@ func c10Stream(r *hx.Rand, tier string, n int, w *bufio.Writer) map[string]int {
 			stats["hit-"+flow+"-"+journalMethod(failed)]++
 		}
 		stats["sched-"+sched+"-"+kind]++
-		c10Observe(l, flow, redirect, resp)
+		c10Observe(l, flow, redirect, resp, v.secrets)
 		fmt.Fprintln(w, l.String())
 		stats["cases"]++
 		caseNo++
@@ -483,10 +589,18 @@ func c10Stream(r *hx.Rand, tier string, n int, w *bufio.Writer) map[string]int {
 					return hx.NewLine("C10").I("case", int64(caseNo)).S("flow", flow).S("router", router).S("cred", vd.cred).S("variant", vd.desc()).I("v", int64(v)).
 						S("mode", mode).I("k", int64(k)).I("n", int64(nCalls)).S("kind", kind)
 				}
-				// (1) every journal index, every base kind
+				// (1) every journal index, every base kind - and one of the special error values (thorough: two), rotating over the
+				// indices, so that every sentinel meets every call position over the variants
 				for k := 1; k <= nCalls+1; k++ {
-					for _, kind := range kinds {
-						bed, req, redirect, _ := c10Prepare(hx.NewRand(seed), sy, router, flow, v)
+					ks := append([]c10Kind{}, kinds...)
+					if k <= nCalls {
+						ks = append(ks, special[(rot+fv*7+k*3)%len(special)])
+						if tier == "thorough" {
+							ks = append(ks, special[(rot+fv*7+k*3+len(special)/2)%len(special)])
+						}
+					}
+					for _, kind := range ks {
+						bed, req, redirect, vr := c10Prepare(hx.NewRand(seed), sy, router, flow, v)
 						bed.Store.FailAt(k, kind.err)
 						resp := bed.Do(req)
 						bed.Store.ClearFaults()
@@ -494,7 +608,37 @@ func c10Stream(r *hx.Rand, tier string, n int, w *bufio.Writer) map[string]int {
 						if k <= len(resp.Journal) { // the k-th call of this request was really made (and failed)
 							idx = []int{k}
 						}
-						emit(line("index", k, kind.name), flow, redirect, "index", kind.name, "", resp, idx, vd)
+						emit(line("index", k, kind.name), flow, redirect, "index", kind.name, "", resp, idx, vr)
+					}
+				}
+				// (1b) pair: TWO different indices of one request fail (i, i+1) - two failures in a row - and, thorough, (i, j) with a
+				// later j chosen by the seed; the second one is only reached when the first was tolerated, retried or a protocol answer
+				pr := hx.NewRand(seed + 99)
+				for i := 1; i < nCalls; i++ {
+					js := []int{i + 1}
+					if tier == "thorough" && i+2 <= nCalls {
+						js = append(js, i+2+pr.Intn(nCalls-i-1))
+					}
+					for pj, j := range js {
+						kind := kinds[(i+fv+pj)%len(kinds)]
+						if (i+fv)%3 == 0 {
+							kind = special[(rot+fv*11+i+pj)%len(special)]
+						}
+						bed, req, redirect, vr := c10Prepare(hx.NewRand(seed), sy, router, flow, v)
+						bed.Store.FailAt(i, kind.err)
+						bed.Store.FailAt(j, kind.err)
+						resp := bed.Do(req)
+						bed.Store.ClearFaults()
+						var idx []int
+						for _, q := range []int{i, j} {
+							if q <= len(resp.Journal) {
+								idx = append(idx, q)
+							}
+						}
+						if len(idx) == 2 {
+							stats["pair-both-hit"]++
+						}
+						emit(line(fmt.Sprintf("pair:%d+%d", i, j), i, kind.name), flow, redirect, "pair", kind.name, "", resp, idx, vr)
 					}
 				}
 				seen := map[string]bool{}
@@ -507,10 +651,10 @@ func c10Stream(r *hx.Rand, tier string, n int, w *bufio.Writer) map[string]int {
 				}
 				sort.Strings(methods)
 				// firstK: the named method fails on its first k calls (the calls are found run by run: a retry adds calls)
-				firstK := func(m string, k int, kind c10Kind) (*opbed.Resp, []int, string) {
+				firstK := func(m string, k int, kind c10Kind) (*opbed.Resp, []int, string, c10Var) {
 					var idx []int
 					for {
-						bed, req, redirect, _ := c10Prepare(hx.NewRand(seed), sy, router, flow, v)
+						bed, req, redirect, vr := c10Prepare(hx.NewRand(seed), sy, router, flow, v)
 						for _, i := range idx {
 							bed.Store.FailAt(i, kind.err)
 						}
@@ -527,7 +671,7 @@ func c10Stream(r *hx.Rand, tier string, n int, w *bufio.Writer) map[string]int {
 							idx = append(idx, next)
 							continue
 						}
-						return resp, idx, redirect
+						return resp, idx, redirect, vr
 					}
 				}
 				for i, m := range methods {
@@ -541,22 +685,22 @@ func c10Stream(r *hx.Rand, tier string, n int, w *bufio.Writer) map[string]int {
 					}
 					for si, kind := range sel {
 						// (2) always: every call of the method fails
-						bed, req, redirect, _ := c10Prepare(hx.NewRand(seed), sy, router, flow, v)
+						bed, req, redirect, vr := c10Prepare(hx.NewRand(seed), sy, router, flow, v)
 						bed.Store.FailMethod(m, kind.err)
 						resp := bed.Do(req)
 						bed.Store.ClearFaults()
-						emit(line("method:"+m, 0, kind.name), flow, redirect, "always", kind.name, m, resp, callsOf(resp.Journal, m), vd)
+						emit(line("method:"+m, 0, kind.name), flow, redirect, "always", kind.name, m, resp, callsOf(resp.Journal, m), vr)
 						if si == 0 {
 							continue // a base kind on the first call is schedule (1)
 						}
 						// (3) first k calls, k = 1, 2, 3 (k+1 only when k calls could really be failed: the method was called again)
 						for k := 1; k <= 3; k++ {
-							resp, idx, redirect := firstK(m, k, kind)
+							resp, idx, redirect, vr := firstK(m, k, kind)
 							if len(idx) < k {
 								stats["sched-saturated"]++
 								break
 							}
-							emit(line("method:"+m, k, kind.name), flow, redirect, fmt.Sprintf("first%d", k), kind.name, m, resp, idx, vd)
+							emit(line("method:"+m, k, kind.name), flow, redirect, fmt.Sprintf("first%d", k), kind.name, m, resp, idx, vr)
 						}
 					}
 				}
@@ -570,7 +714,7 @@ func c10Stream(r *hx.Rand, tier string, n int, w *bufio.Writer) map[string]int {
 					allKinds = append(allKinds, special[(rot+fv*nAll+j)%len(special)])
 				}
 				for _, kind := range allKinds {
-					bed, req, redirect, _ := c10Prepare(hx.NewRand(seed), sy, router, flow, v)
+					bed, req, redirect, vr := c10Prepare(hx.NewRand(seed), sy, router, flow, v)
 					for i := 1; i <= 64; i++ {
 						bed.Store.FailAt(i, kind.err)
 					}
@@ -580,7 +724,7 @@ func c10Stream(r *hx.Rand, tier string, n int, w *bufio.Writer) map[string]int {
 					for i := range resp.Journal {
 						idx = append(idx, i+1)
 					}
-					emit(line("all", 0, kind.name), flow, redirect, "all", kind.name, "", resp, idx, vd)
+					emit(line("all", 0, kind.name), flow, redirect, "all", kind.name, "", resp, idx, vr)
 				}
 			}
 		}
